@@ -604,7 +604,7 @@ def ir_heap(model, it: Interner, tensor_key_fn=tensor_key) -> tuple[str, str, IR
 
 
 CASE_HEADER = """From Coq Require Import NArith ZArith List Bool.
-From IRV Require Import Base.Exn C03.Model C03.Canon.
+From IRV Require Import Base.Exn C03.Model C03.Canon C03.Inv.
 Import ListNotations.
 Open Scope Z_scope.
 """
@@ -617,6 +617,19 @@ import re
 
 C03_LOG = """
 C03 check (PART 2) - running log of decisions.
+
+THEOREMS (coq/theories/C03/Property.v, owned by the orchestrating engineer): C03_ser_deterministic (serializing
+twice from the same state gives equal results), C03_ser_readonly (ser_model changes nothing in the heap but tensor
+names), C03_roundtrip_consistent_partial (whatever was serialized, if the proto deserializes the result satisfies
+the use-def invariant).  The principal statement C03_iso (Inv h -> serializable h m -> the round trip is
+isomorphic) is NOT proved: `iso_statement_b np h m` - the statement instantiated on the concrete state - is
+evaluated by Coq on every generated case (must be true), together with the agreement of the model with the code on
+that case.  Hence ck.level = "translation_validation".
+Restrictions of `serializable` added by this check after Coq evaluated a state it accepted whose round trip is not
+isomorphic (Iso.serializable_b; each mirrored in py_serializable): (1) only initializers carry a const_value
+(documented as ignored elsewhere); (2) no tensor object is the const_value of two values (tensor names are per
+object, the proto has one name per initializer); (3) an initializer that is not a graph input has both a type and a
+shape (its payload is a fixpoint of the tensor's fill table; after 420823a missing fields come back filled in).
 
 THE TIE.  Every case is an IR model built through the PUBLIC API only from a JSON recipe: construction ops
 (ir.Tensor / StringTensor / ExternalTensor (never read) / LazyTensor / PackedTensor / TensorProtoTensor, ir.Value,
@@ -653,13 +666,18 @@ READINGS (weaker reading taken where the English is ambiguous)
 * None == "" for graph names, node names, doc strings, producer_name/..., model_version None == 0 (absent proto
   fields read back as None).  A Node whose name is None reads back as "" - Iso.serializable_b demands Some name,
   the Python oracle accepts it (BENIGN "node-name-none").
-* Accepted documented deviation: an initializer without type AND shape (and not a graph input) gets them from its
-  tensor on the way back (serde: "Users expect initialized values to have shape and type information"); the
-  Gallina hypothesis excludes that state, the Python oracle accepts either (BENIGN "init-no-info").
+* Accepted documented deviation: an initializer that is not a graph input comes back with a missing type and/or a
+  missing shape filled in from its tensor (serde._deserialize_graph: "Users expect initialized values to have shape
+  and type information"; since 420823a also when a value_info entry exists).  Iso.serializable_b demands that such
+  an initializer has both (its payload is a fixpoint of the tensor's fill table); the Python oracle accepts the
+  filled-in fields, field by field (BENIGN "init-partial-info").
 * Not carried by the format, hence not compared: Node.version, opset_imports of subgraphs (only the model's and the
   functions' are serialized), the name of a function's underlying Graph, ExternalTensor.base_dir, meta stores.
-* "aligning each initializer tensor's own name": a tensor shared by two initializers ends with the name of the
-  last one serialized; accepted (the name of *a* value holding it).
+* "aligning each initializer tensor's own name": a tensor object shared by two initializers ends with the name of
+  the last one serialized; accepted by the oracle (the name of *a* value holding it; the round trip yields one
+  tensor per initializer, compared by content and by the VALUE's name).  Iso.serializable_b excludes shared tensor
+  objects (condition "shared-tensor", BENIGN; added by this check: the Gallina iso compares tensor names cell by
+  cell and was false on such a state).
 * const_value on a value that is not an initializer is documented as ignored by serialization
   (Value.const_value docstring): such states are outside `serializable` (condition "const-not-init"; added to
   Iso.serializable_b by this check after it accepted a state whose round trip is not isomorphic).
@@ -1241,9 +1259,9 @@ class Gen:
                     inits.append(v)
                 else:
                     q = r.random()
-                    if q < 0.85:
+                    if q < 0.92:
                         v = self.new_value(const=t, like_tensor=True)
-                    elif q < 0.93:
+                    elif q < 0.96:
                         v = self.new_value(const=t, fields={"doc": "only a doc"})
                     else:
                         v = self.new_value(const=t)
@@ -1813,7 +1831,7 @@ def snapshot_diff(s0: dict, s1: dict) -> list:
         if key == "_keep":
             continue
         if key not in s1:
-            bad.append(f"side-effect: object {key[0]} no longer reachable after to_proto")
+            bad.append(f"side-effect:{key[0]}.reachable: object no longer reachable after to_proto")
             continue
         a, b = s0[key], s1[key]
         if a == b:
@@ -1822,10 +1840,10 @@ def snapshot_diff(s0: dict, s1: dict) -> list:
             if a[fld] != b.get(fld):
                 if key[0] == "t" and fld == "name" and b["name"] in holders.get(key[1], ()):
                     continue
-                bad.append(f"side-effect: {key[0]} {a.get('name')!r}: {fld} changed {a[fld]!r} -> {b.get(fld)!r}"[:300])
+                bad.append(f"side-effect:{key[0]}.{fld}: {key[0]} {a.get('name')!r}: {fld} changed {a[fld]!r} -> {b.get(fld)!r}"[:300])
     for key in s1:
         if key not in s0:
-            bad.append(f"side-effect: new object {key[0]} reachable after to_proto")
+            bad.append(f"side-effect:{key[0]}.reachable: new object reachable after to_proto")
     return bad
 
 
@@ -1841,7 +1859,7 @@ def tensor_names_aligned(model) -> list:
     for tid, names in holders.items():
         t = R.tensors[tid]
         if t.name not in names:
-            bad.append(f"side-effect: initializer tensor name {t.name!r} is not the name of its value {sorted(map(repr, names))}")
+            bad.append(f"side-effect:tensor-name: initializer tensor name {t.name!r} is not the name of its value {sorted(map(repr, names))}")
     return bad
 
 
@@ -2139,7 +2157,7 @@ def _tensor_type(t):
 
 # --------------------------------------------------------------------------- the hypothesis, re-stated in Python
 
-BENIGN = {"node-name-none", "init-no-info"}       # conditions only the Gallina statement needs (see C03_LOG)
+BENIGN = {"node-name-none", "init-partial-info", "shared-tensor"}     # conditions only the Gallina statement needs (see C03_LOG)
 
 
 def py_serializable(model) -> list:
@@ -2191,8 +2209,8 @@ def py_serializable(model) -> list:
                 bad.add("init-key")
             if v.const_value is None:
                 bad.add("init-no-const")
-            if not any(v is x for x in ins) and value_payload_key(v) is None:
-                bad.add("init-no-info")
+            if not any(v is x for x in ins) and (v.type is None or v.shape is None):
+                bad.add("init-partial-info")       # comes back completed from the tensor (accepted deviation)
         tbl = table_of(g)
         names = [k for k, _ in tbl]
         if len(set(names)) != len(names):
@@ -2236,6 +2254,9 @@ def py_serializable(model) -> list:
             bad.add("use-outside")
         if v.const_value is not None and not v.is_initializer():
             bad.add("const-not-init")
+    held = [id(v.const_value) for v in R.values.values() if v.const_value is not None]
+    if len(set(held)) != len(held):
+        bad.add("shared-tensor")
     return sorted(bad)
 
 # --------------------------------------------------------------------------- one case: implementation + oracle + Coq term
@@ -2295,12 +2316,12 @@ def run_case(recipe: dict, want_term: bool = True, repair=None) -> dict:
         try:
             q2 = ir.to_proto(model)
             if q1 != q2:
-                res["oracle"].append("twice: the second to_proto(model) differs from the first")
+                res["oracle"].append("twice:proto: the second to_proto(model) differs from the first")
         except Exception as e:  # noqa: BLE001
-            res["oracle"].append(f"twice: the second to_proto(model) raises {type(e.__cause__ or e).__name__}")
+            res["oracle"].append(f"twice:raises: the second to_proto(model) raises {type(e.__cause__ or e).__name__}")
         res["oracle"] += snapshot_diff(s1, snapshot(model))
     elif enforce_iso:
-        res["oracle"].append(f"roundtrip: to_proto raises {res['ser']} on a serializable model")
+        res["oracle"].append(f"roundtrip:to_proto: to_proto raises {res['ser']} on a serializable model")
     # ---- (c): round trip
     m2 = None
     if q1 is not None:
@@ -2310,7 +2331,7 @@ def run_case(recipe: dict, want_term: bool = True, repair=None) -> dict:
         except Exception as e:  # noqa: BLE001
             res["deser"] = "raise:" + type(e.__cause__ or e).__name__
             if enforce_iso:
-                res["oracle"].append(f"roundtrip: from_proto(to_proto(model)) raises {res['deser']} on a serializable model")
+                res["oracle"].append(f"roundtrip:from_proto: from_proto(to_proto(model)) raises {res['deser']} on a serializable model")
         if m2 is not None:
             iso = IsoCheck(model, m2).bad
             res["iso"] = iso
@@ -2540,6 +2561,7 @@ def run(ck) -> None:
     ck.coverage["rule"] = ("non-trivial = model satisfying `serializable` (Python and Coq agree) that has a nested "
                            "graph, a function or a non-empty edit history, round-tripped and compared by the "
                            "independent isomorphism check")
+    ck.level = "translation_validation"      # C03_iso itself is not proved: its statement is evaluated per case
     ck.prove("C03")
     n_cases = 420 if not ck.thorough else 9000
     recipes = [(c["recipe"], "corpus:" + fn) for fn, c in load_corpus()]
@@ -2612,7 +2634,7 @@ def run(ck) -> None:
             ck.hist("known_finding_cases", key)
             continue
         site = failure_site(msgs[0])
-        if site in reported:
+        if site in reported or len(reported) >= 4:
             continue
         reported.add(site)
         report_violation(ck, recipe, msgs, "oracle")
